@@ -8,6 +8,7 @@ import (
 	"sort"
 	"strings"
 	"sync"
+	"time"
 
 	"github.com/tucats/ego/internal/verifrt/report"
 )
@@ -159,14 +160,12 @@ func view(raw *Raw, outOnly bool, cfg Config) map[string][]string {
 	return b
 }
 
-func (e *engine) dirsFor(cfg Config, dirs []string) []string {
-	if cfg.Diag != "trace" || len(e.plan.CorpusTraceDirs) == 0 {
-		return dirs
-	}
-
+// traceUnit is the one unit run under --trace when the plan limits tracing
+// to some directories ("" = no limit).
+func (e *engine) traceUnit(all []string) string {
 	var out []string
 
-	for _, d := range dirs {
+	for _, d := range all {
 		for _, t := range e.plan.CorpusTraceDirs {
 			if d == t {
 				out = append(out, d)
@@ -174,10 +173,50 @@ func (e *engine) dirsFor(cfg Config, dirs []string) []string {
 		}
 	}
 
+	return strings.Join(out, "+")
+}
+
+// A corpus unit is a set of directories run by one `ego test` command line
+// (every invocation of `ego test` re-imports the whole runtime library, so
+// the number of invocations, not the number of tests, is what costs time).
+// Its name is the directory names joined with "+".
+func unitPaths(repo, unit string) []string {
+	var out []string
+
+	for _, d := range strings.Split(unit, "+") {
+		out = append(out, filepath.Join(repo, "tests", d))
+	}
+
 	return out
 }
 
-type corpusRun map[string]map[string][]string // dir -> block key -> lines
+func shownPaths(unit string) []string {
+	var out []string
+
+	for _, d := range strings.Split(unit, "+") {
+		out = append(out, "tests/"+d)
+	}
+
+	return out
+}
+
+// units groups directories, per at a time.
+func units(dirs []string, per int) []string {
+	var out []string
+
+	for lo := 0; lo < len(dirs); lo += per {
+		hi := lo + per
+		if hi > len(dirs) {
+			hi = len(dirs)
+		}
+
+		out = append(out, strings.Join(dirs[lo:hi], "+"))
+	}
+
+	return out
+}
+
+type corpusRun map[string]map[string][]string // unit -> block key -> lines
 
 // corpusBatch runs every directory under (cfg, mode) in batch processes.
 func (e *engine) corpusBatch(wg *sync.WaitGroup, cfg Config, mode string, dirs []string, sink func(dir string, raw *Raw)) {
@@ -194,10 +233,13 @@ func (e *engine) corpusBatch(wg *sync.WaitGroup, cfg Config, mode string, dirs [
 		e.submit(wg, func() {
 			items := make([]Item, len(chunk))
 			for i, d := range chunk {
-				items[i] = Item{ID: i, Args: append([]string{"ego"}, cfg.TestArgs(mode, filepath.Join(e.run.Repo, "tests", d))...)}
+				items[i] = Item{ID: i, Args: append([]string{"ego"}, cfg.TestArgs(mode, unitPaths(e.run.Repo, d)...)...)}
 			}
 
+			t1 := time.Now()
 			res := e.run.Batch(items, cfg.Diag == "debug")
+
+			progress("  corpus unit %s %s %v: %.1fs", cfg.Label(), mode, chunk, time.Since(t1).Seconds())
 
 			for i, d := range chunk {
 				raw := res[i]
@@ -272,6 +314,26 @@ func (e *engine) corpus() {
 	e.r.Set("corpus_directories", len(dirs))
 	e.r.Set("corpus_files", files)
 
+	per := e.plan.CorpusDirsPerRun
+	if per <= 0 {
+		per = 4
+	}
+
+	traceU := ""
+	if len(e.plan.CorpusTraceDirs) > 0 {
+		traceU = e.traceUnit(dirs)
+	}
+
+	dirs = units(dirs, per)
+
+	// The baseline also runs the unit that only --trace uses.
+	baseUnits := dirs
+	if traceU != "" {
+		baseUnits = append(append([]string{}, dirs...), traceU)
+	}
+
+	e.r.Set("corpus_ego_test_command_lines_per_pass", len(dirs))
+
 	var stable, noisy, compared int64
 
 	var all sync.WaitGroup
@@ -295,7 +357,7 @@ func (e *engine) corpus() {
 				for k := 0; k < 2; k++ {
 					k := k
 
-					e.corpusBatch(&wg, g.Base, mode, dirs, func(dir string, raw *Raw) {
+					e.corpusBatch(&wg, g.Base, mode, baseUnits, func(dir string, raw *Raw) {
 						b, _ := blocks(raw, e.plan.OutOnly)
 						c := coarse(raw)
 
@@ -312,7 +374,7 @@ func (e *engine) corpus() {
 				// ref: per-test view; refCoarse: the view used against --trace.
 				ref, refCoarse := corpusRun{}, corpusRun{}
 
-				for _, d := range dirs {
+				for _, d := range baseUnits {
 					ref[d] = map[string][]string{}
 					refCoarse[d] = map[string][]string{}
 
@@ -328,6 +390,10 @@ func (e *engine) corpus() {
 						if w, ok := baseCoarse[1][d][k]; ok && eqLines(v, w) {
 							refCoarse[d][k] = v
 						}
+					}
+
+					if d == traceU && traceU != "" && len(dirs) > 0 && d != dirs[0] {
+						continue // only the coarse view of this unit is used
 					}
 
 					for k, v := range base[0][d] {
@@ -363,7 +429,12 @@ func (e *engine) corpus() {
 						want = refCoarse
 					}
 
-					e.corpusBatch(&wg, cfg, mode, e.dirsFor(cfg, dirs), func(dir string, raw *Raw) {
+					run := dirs
+					if cfg.Diag == "trace" && traceU != "" {
+						run = []string{traceU}
+					}
+
+					e.corpusBatch(&wg, cfg, mode, run, func(dir string, raw *Raw) {
 						b := view(raw, e.plan.OutOnly, cfg)
 						differs := !raw.Done
 
@@ -449,7 +520,7 @@ func (e *engine) corpus() {
 }
 
 func (e *engine) freshCorpus(cfg, viewOf Config, mode, dir string) (map[string][]string, bool) {
-	raw := e.run.Fresh(cfg.TestArgs(mode, filepath.Join(e.run.Repo, "tests", dir)), cfg.Diag == "debug")
+	raw := e.run.Fresh(cfg.TestArgs(mode, unitPaths(e.run.Repo, dir)...), cfg.Diag == "debug")
 
 	return view(raw, e.plan.OutOnly, viewOf), raw.Done
 }
@@ -516,7 +587,7 @@ func (e *engine) confirmCorpus(base, cfg Config, mode, dir, only string) {
 
 			w := Witness{
 				Kind: "corpus", Mode: mode, Base: base, Config: cfg, TestDir: dir, TestName: k,
-				BaseCmd: cmdLine(base.TestArgs(mode, "tests/"+dir)), Cmd: cmdLine(cfg.TestArgs(mode, "tests/"+dir)),
+				BaseCmd: cmdLine(base.TestArgs(mode, shownPaths(dir)...)), Cmd: cmdLine(cfg.TestArgs(mode, shownPaths(dir)...)),
 				BaseObs: bo, Obs: co,
 			}
 
@@ -528,22 +599,30 @@ func (e *engine) confirmCorpus(base, cfg Config, mode, dir, only string) {
 	}
 }
 
-// corpusKind names the way a test block changed.
+var testArea = regexp.MustCompile(`^([a-z0-9_]+): `)
+
+// corpusKind names the way a test block changed, with the area the test
+// names itself after ("types: ...", "flow: ...").
 func corpusKind(w Witness) string {
 	bad := func(o Obs) bool { return o.Failed || len(o.Err) > 0 }
 
-	switch {
-	case strings.HasPrefix(w.TestName, "#"):
-		return "summary-differs:" + w.TestDir
-	case !bad(w.BaseObs) && bad(w.Obs):
-		return "test-fails:" + w.TestDir
-	case bad(w.BaseObs) && !bad(w.Obs):
-		return "test-stops-failing:" + w.TestDir
-	case bad(w.BaseObs) && bad(w.Obs):
-		return "test-fails-differently:" + w.TestDir
+	area := "summary"
+	if m := testArea.FindStringSubmatch(w.TestName); m != nil {
+		area = m[1]
 	}
 
-	return "test-output-differs:" + w.TestDir
+	switch {
+	case strings.HasPrefix(w.TestName, "#"):
+		return "summary-differs"
+	case !bad(w.BaseObs) && bad(w.Obs):
+		return "test-fails:" + area
+	case bad(w.BaseObs) && !bad(w.Obs):
+		return "test-stops-failing:" + area
+	case bad(w.BaseObs) && bad(w.Obs):
+		return "test-fails-differently:" + area
+	}
+
+	return "test-output-differs:" + area
 }
 
 // blockObs presents a test block as an observation: a FAIL status or a
